@@ -12,6 +12,23 @@ from .coverage import command_table_attr
 SELF_READ_OK = {"lineno", "argument_lines", "result_name", "name", "display_name", "arguments", "inputs", "output", "is_fuzzy"}
 
 
+def _key_is_raw_reference(fi, key):
+    """the key visibly comes from an argument's raw value (`argument.value`, an element of it, a name bound to one)"""
+    names = K.dep_names(fi, key) | K.names_in(key)
+    src = K.src(K.expand(fi, key))
+    if ".value" in src:
+        return True
+    for n in own_nodes(fi.node):
+        tgt = None
+        if isinstance(n, ast.Assign) and len(n.targets) == 1:
+            tgt, val = n.targets[0], n.value
+        elif isinstance(n, (ast.For, ast.comprehension)):
+            tgt, val = n.target, n.iter
+        if tgt is not None and (K.names_in(tgt) & names) and ".value" in K.src(val) and "result_name" not in K.src(val):
+            return True
+    return False
+
+
 def run(ctx, idx):
     A = K.anchors(idx)
     ctx.assume("numpy axioms A1-A3, A14: which constructors and operators yield a MaskedArray")
@@ -44,22 +61,31 @@ def run(ctx, idx):
     roots += [d.execute for d, _r in R.results(idx).values()]
     on_path, _p = idx.reachable(roots)
 
-    def off_path(fi):
-        return fi is not None and fi not in on_path and fi.cls is prog
+    from .coverage import _after_loading_loop, _miss_changes_nothing
+
+    load_reach, _lp = idx.reachable(starts)
+
+    def off_path(fi, site=None):
+        if fi is not None and fi not in on_path and fi.cls is prog:
+            return True
+        # while loading: a lookup after every command was added, or one whose 'not found' outcome changes nothing (decided by C02.g)
+        return fi is not None and site is not None and fi in load_reach and (_after_loading_loop(fi, site) or _miss_changes_nothing(idx, fi, site))
     for mod, fi, n in K.scoped_nodes(idx):
         if isinstance(n, ast.Subscript) and isinstance(n.ctx, ast.Load) and isinstance(n.value, ast.Attribute) and n.value.attr == attr and not isinstance(n.slice, ast.Constant):
             n_lookup += 1
             ok = fi is not None and fi.cls is not None and fi.cls.name == "ResultParameter" and fi.name == "clean"
-            if not ok and off_path(fi):
-                ctx.hold("C02.a", "%s::table-lookup" % K.where(mod, fi), mod.rel, n.lineno, "accessor of Program that neither loading nor evaluation reaches", nontrivial=False)
+            if not ok and off_path(fi, n):
+                ctx.hold("C02.a", "%s::table-lookup" % K.where(mod, fi), mod.rel, n.lineno, "off the evaluation path, or a load-time lookup whose miss changes nothing", nontrivial=False)
                 continue
+            if not ok and fi is not None and fi.cls is prog and not _key_is_raw_reference(fi, n.slice):
+                raise AnalysisError("C02.a: `%s` in %s indexes the command table by a key that is not visibly a raw argument value (e.g. the result name of an already resolved command): cannot decide whether this is a second resolution of references" % (K.src(n), fi.qualname))
             ctx.ob("C02.a", "%s::table-lookup" % K.where(mod, fi), mod.rel, n.lineno, ok,
                    "run-time lookup by name in ResultParameter.clean" if ok else "the command table is indexed by name outside ResultParameter.clean: %s" % K.src(n))
         if isinstance(n, ast.Call) and isinstance(n.func, ast.Attribute) and n.func.attr == "get" and isinstance(n.func.value, ast.Attribute) and n.func.value.attr == attr:
             ok = fi is not None and fi.cls is not None and fi.cls.name == "ResultParameter"
             n_lookup += 1
-            if not ok and off_path(fi):
-                ctx.hold("C02.a", "%s::table-lookup" % K.where(mod, fi), mod.rel, n.lineno, "accessor of Program that neither loading nor evaluation reaches", nontrivial=False)
+            if not ok and off_path(fi, n):
+                ctx.hold("C02.a", "%s::table-lookup" % K.where(mod, fi), mod.rel, n.lineno, "off the evaluation path, or a load-time lookup whose miss changes nothing", nontrivial=False)
                 continue
             ctx.ob("C02.a", "%s::table-lookup" % K.where(mod, fi), mod.rel, n.lineno, ok, "lookup in ResultParameter" if ok else "the command table is queried by name outside ResultParameter.clean: %s" % K.src(n))
     ctx.floor("C02.a", "by-name lookups of the command table", n_lookup, 1)
@@ -100,7 +126,10 @@ def run(ctx, idx):
         for n in own_nodes(fi.node):
             if isinstance(n, (ast.Global, ast.Nonlocal)):
                 probs.append((n.lineno, "declares global state"))
-        for f_, n_, (m_, nm_) in K.state_uses(idx, fi)[:1]:
+        su_ = K.state_uses(idx, fi)
+        if su_ and K.state_is_content_checked(idx, fi, su_):
+            raise AnalysisError("C02.b: %s keeps module-level state `%s` but compares it with the text it has just read before reusing it (a content-validated cache): cannot decide whether the validation is complete" % (d.cls.name, su_[0][2][1]))
+        for f_, n_, (m_, nm_) in su_[:1]:
             probs.append((n_.lineno, "uses module-level state `%s.%s` that functions mutate (a cache or registry kept between executions): the result depends on what ran earlier in the process, not on the command's inputs alone" % (m_, nm_)))
         con = "%s.execute::pure" % d.key
         if probs:
